@@ -85,10 +85,17 @@ def run (t : Tier) : Emit Unit := do
     let ps := m.packets
     let expPES := showPerPID (m.expected.filter fun e => isPESPid m e.1) 0 "eof"
     let expAll := showPerPID m.expected 0 "eof" true
+    let expPESnoErr := showPerPID (m.expected.filter fun e => isPESPid m e.1) 0 "eof" true
     -- every single-packet duplication position
     for k in [0:ps.length] do
       let dup := ps.take (k + 1) ++ [ps.getD k default] ++ ps.drop (k + 1)
-      emit "C06" (demuxCase (bytesOf dup) { view := .perpid, onlyPES := true } none (some expPES) "dup-every-position")
+      -- a duplicate on a PES PID: the whole output (errors included) is that of the undisturbed stream; a duplicate on a
+      -- table PID may re-deliver a table or surface a parse error for the repeated fragment (an early-flushed PAT/PMT
+      -- leaves no packet to compare the duplicate with) — the property only requires the PES output to be identical
+      if isPESPid m (ps.getD k default).header.pid then
+        emit "C06" (demuxCase (bytesOf dup) { view := .perpid, onlyPES := true } none (some expPES) "dup-every-position")
+      else
+        emit "C06" (demuxCase (bytesOf dup) { view := .perpid, onlyPES := true, noErr := true } none (some expPESnoErr) "dup-table-pid-position")
     -- every single-packet deletion position that is followed by a later payload packet of the same PID
     for k in [0:ps.length] do
       let p := ps.getD k default
